@@ -63,6 +63,11 @@ def make_store(kind, root, reopen=False, lru=3, commit_type=None):
         )
     if kind == "memory_lru":
         return LRUCacheStore(MemoryStore(), lru)
+    if kind == "dbfs_links":
+        # the DBFS store that commits its paths as redirections only (commit type "links_only")
+        from dds.codecs.databricks import CommitType
+
+        return make_store("dbfs", root, reopen=reopen, lru=lru, commit_type=CommitType.LINK_ONLY)
     if kind == "dbfs":
         from dds.codecs.databricks import DBFSStore, DBFSURI, CommitType
         from vp.fakedbutils import FakeDbutils
